@@ -21,3 +21,25 @@ fn c1_closest_singleton_add() {
     kani::cover!(ns.len() == 2);
     std::mem::forget(c);
 }
+
+#[kani::proof]
+#[kani::stub(std::time::Instant::now, clock::now)]
+#[kani::unwind(24)]
+fn c4_take_until_secure_prefix() {
+    let t = Id::from([0u8; 20]);
+    let mut nodes = Vec::with_capacity(22);
+    for i in 0..22u8 {
+        let mut a = [0u8; 20];
+        a[0] = i + 1;
+        nodes.push(Node::new(Id::from(a), std::net::SocketAddrV4::new([10, i, 0, 1].into(), 6881)));
+    }
+    let c = ClosestNodes { target: t, nodes };
+    let est: usize = kani::any();
+    let subnets: usize = kani::any();
+    let out = c.take_until_secure(est, subnets);
+    assert!(out.len() >= 20 && out.len() <= 22);
+    assert!(out.as_ptr() == c.nodes.as_ptr());
+    kani::cover!(out.len() == 22);
+    kani::cover!(out.len() == 20);
+    std::mem::forget(c);
+}
